@@ -19,7 +19,7 @@ pub const CHECKS: &[CheckDef] = &[
     CheckDef { id: "C01", level: "exploration", rules: &["C01.", "CRASH."], quick_runs: 6000, thorough_runs: 200_000, nontrivial_rule: ">=2 subscriptions on one topic, >=1 pair of overlapping Publish calls on a topic, >=1 redelivery" },
     CheckDef { id: "C02", level: "exploration", rules: &["C02.", "C01.lost", "C01.redelivery", "C01.conservation", "CRASH."], quick_runs: 6000, thorough_runs: 200_000, nontrivial_rule: ">=1 acknowledgement that returned OK, followed by a clock advance, with >=1 other message on the subscription" },
     CheckDef { id: "C03", level: "exploration", rules: &["C03.", "C05.reject", "CRASH."], quick_runs: 6000, thorough_runs: 200_000, nontrivial_rule: ">=2 consumers had overlapping requests on one subscription, or >=1 redelivery was observed" },
-    CheckDef { id: "C04", level: "exploration", rules: &["C04.", "C03.ackid", "C06.quiescent", "CRASH."], quick_runs: 8000, thorough_runs: 300_000, nontrivial_rule: "sequential lease run with >=1 redelivery after expiry (a probe on the late side saw the message again)" },
+    CheckDef { id: "C04", level: "exploration", rules: &["C04.", "C03.ackid", "C03.double", "C06.quiescent", "CRASH."], quick_runs: 8000, thorough_runs: 300_000, nontrivial_rule: "sequential lease run with >=1 redelivery after expiry (a probe on the late side saw the message again)" },
     CheckDef { id: "C05", level: "exploration", rules: &["C05.", "C03.double", "CRASH."], quick_runs: 8000, thorough_runs: 300_000, nontrivial_rule: "sequential lease run with >=1 ModifyAckDeadline naming an outstanding delivery" },
     CheckDef { id: "C06", level: "exploration", rules: &["C06.", "CRASH."], quick_runs: 6000, thorough_runs: 200_000, nontrivial_rule: ">=1 parked blocking Pull or stream received messages that became available while it was parked" },
     CheckDef { id: "C07", level: "exploration", rules: &["C07.", "CRASH."], quick_runs: 5000, thorough_runs: 100_000, nontrivial_rule: "a mailbox was full when a request or a fan-out post was sent (probe mailbox_full_at_send / post_blocked_on_full_mailbox)" },
@@ -27,7 +27,7 @@ pub const CHECKS: &[CheckDef] = &[
     CheckDef { id: "C09", level: "exploration", rules: &["C09.", "CRASH."], quick_runs: 5000, thorough_runs: 150_000, nontrivial_rule: ">=1 redelivery and >=1 delivery by each of >=2 delivery paths" },
     CheckDef { id: "C10", level: "exploration", rules: &["C10.", "CRASH."], quick_runs: 6000, thorough_runs: 200_000, nontrivial_rule: ">=2 operations on one name overlapped and at least one of them was a create or a delete" },
     CheckDef { id: "C11", level: "exploration", rules: &["C11.", "C01.conservation", "C01.lost", "C01.redelivery", "C14.retry", "CRASH."], quick_runs: 6000, thorough_runs: 200_000, nontrivial_rule: ">=1 DeleteSubscription or DeleteTopic returned OK and a later audit listed a topic's subscriptions" },
-    CheckDef { id: "C12", level: "exploration", rules: &["C12.", "CRASH."], quick_runs: 5000, thorough_runs: 150_000, nontrivial_rule: "a DeleteSubscription returned OK while >=1 stream or blocking Pull was waiting on the subscription" },
+    CheckDef { id: "C12", level: "exploration", rules: &["C12.", "C10.conflict", "C01.conservation", "CRASH."], quick_runs: 5000, thorough_runs: 150_000, nontrivial_rule: "a DeleteSubscription returned OK while >=1 stream or blocking Pull was waiting on the subscription" },
     CheckDef { id: "C13", level: "exploration", rules: &["C13.", "C11.consistent", "C10.residue", "CRASH."], quick_runs: 4000, thorough_runs: 100_000, nontrivial_rule: ">=1 walk of >=2 pages over a listing that had deletions before it, or a forged decodable token" },
     CheckDef { id: "C14", level: "exploration", rules: &["C14.", "C09.fields", "C03.double", "CRASH."], quick_runs: 5000, thorough_runs: 150_000, nontrivial_rule: ">=1 POST was answered with a non-accepting behaviour and the same message was POSTed again" },
     CheckDef { id: "C15", level: "exploration", rules: &["C15.", "C06.quiescent", "CRASH."], quick_runs: 5000, thorough_runs: 150_000, nontrivial_rule: ">=1 Pull whose max_messages was smaller than the number of available messages, or a parked Pull that was woken" },
@@ -105,6 +105,9 @@ pub fn generate(id: &str, run_seed: u64, _thorough: bool) -> Plan {
             } else if pick < 36 {
                 // requests arriving the instant a lease runs out, with a consumer waiting
                 f_edge(run_seed)
+            } else if pick < 44 {
+                // push deliveries: the lease of a POST that the endpoint answers slowly or never
+                f_push(run_seed, false)
             } else {
                 f_lease(run_seed, &LeaseOpts { modacks: false, limits: pick < 50 })
             }
@@ -153,6 +156,9 @@ pub fn generate(id: &str, run_seed: u64, _thorough: bool) -> Plan {
         "C08" => {
             if pick < 6 {
                 f_bigbatch(run_seed)
+            } else if pick >= 92 {
+                // publishes inside a burst that fills the subscription mailbox
+                f_burst_order(run_seed)
             } else if pick < 12 {
                 // IDs issued around a DeleteTopic
                 f_topicdelete(run_seed)
@@ -169,13 +175,23 @@ pub fn generate(id: &str, run_seed: u64, _thorough: bool) -> Plan {
         "C09" => {
             if pick >= 94 {
                 f_topicdelete(run_seed)
+            } else if pick >= 86 {
+                // publishes that fail half-way (a subscription deleted under a racing create stays
+                // attached): IDs and payloads seen by the healthy subscriptions next to it
+                f_zombie(run_seed)
             } else {
                 f_general(run_seed, &GeneralOpts { rich_payloads: true, publisher_faults: false, push: pick < 50, big_batches: false, ..full })
             }
         }
         "C10" => {
-            if pick < 90 {
+            if pick < 82 {
                 f_names(run_seed, 1 + pick % 4, pick < 50)
+            } else if pick < 90 {
+                // a create / delete handled while the topic's mailbox is full
+                f_topicburst(run_seed)
+            } else if pick < 96 {
+                // a slow, then abandoned create while the name is deleted and created again
+                f_recreate(run_seed)
             } else {
                 f_dupcreate(run_seed).with_tag("names")
             }
